@@ -1275,3 +1275,66 @@ func VerifC03_BodyWriteFails() {
 	}
 	verif.Cover("end")
 }
+
+// VerifC02_ReplyCarriesItsOwnBody: a request on a retrying route whose first
+// attempt is answered with a retriable status and a body. The retry then finds
+// no host, fails in the pool, or is accepted and answered (with another body
+// or none). Whatever ends the request, the one reply the client gets consists
+// of a header and a body from the same exchange: a reply the proxy generates
+// itself carries no byte of the abandoned attempt's response, and the second
+// attempt's response carries its own body only.
+func VerifC02_ReplyCarriesItsOwnBody() {
+	verif.Switches(0)
+	ds, sender, pool, p, ctx := zzMachine(1, true)
+	zzTryTimeout, zzMaxRetries = 0, 0
+	pool.scripted = true
+	p.clusterManager.(*zzMCM).mayEmpty = true
+	done := false
+	go func() {
+		ds.OnReceive(ctx, protocol.CommonHeader{}, nil, nil)
+		done = true
+	}()
+	verif.Settle()
+	if done || len(pool.senders) != 1 {
+		return // the first attempt was not accepted: C03's subject
+	}
+	first := ds.upstreamRequest
+	withBody := verif.Choose("first_response_has_body", 2) == 1
+	var b1 buffer.IoBuffer
+	if withBody {
+		b1 = buffer.NewIoBufferBytes([]byte("FIRST"))
+	}
+	first.OnReceive(ctx, protocol.CommonHeader{"status": "503", "x-from": "first"}, b1, nil)
+	verif.Settle()
+	second := ""
+	if !done {
+		// the retry was accepted: its upstream answers
+		if ur := ds.upstreamRequest; ur != nil && ur.requestSender != nil && len(pool.senders) == 2 {
+			var b2 buffer.IoBuffer
+			if verif.Choose("second_response_has_body", 2) == 1 {
+				b2 = buffer.NewIoBufferBytes([]byte("second"))
+				second = "second"
+			}
+			ur.OnReceive(ctx, protocol.CommonHeader{"status": "200", "x-from": "second"}, b2, nil)
+			verif.Settle()
+			verif.Cover("retry answered")
+		}
+	}
+	verif.Assume(done && sender.headers >= 1)
+	// which exchange does the reply's header come from: the first response (forwarded because no
+	// retry was possible), the second one, or the proxy itself
+	want := ""
+	switch from, _ := sender.last.Get("x-from"); from {
+	case "first":
+		if withBody {
+			want = "FIRST"
+		}
+	case "second":
+		want = second
+	default:
+		verif.Cover("local reply after a retried response")
+	}
+	verif.Assert(sender.headers == 1, "the client must get exactly one reply")
+	verif.Assert(sender.body == want, "the reply's body is not the body of the exchange its header comes from (bytes of an abandoned attempt's response, or a body lost)")
+	verif.Cover("end")
+}
